@@ -63,7 +63,13 @@ func c13unknownID() []byte {
 }
 
 // listAll runs the combinations on one replica and emits one case per call.
-func c13listAll(out *vharness.Out, rng *rand.Rand, kind, where string, desc []string, st iface.Store, list c13lister, exhaustive bool) {
+func c13listAll(out *vharness.Out, rng *rand.Rand, kind, where string, desc []string, st iface.Store, list c13lister, exhaustive bool, unopenable ...map[string]bool) {
+	skip := map[string]bool{}
+	for _, m := range unopenable {
+		for k := range m {
+			skip[k] = true
+		}
+	}
 	arrival := st.OpLog().GetEntries().Slice()
 	canon := vCanonical(st.OpLog())
 	ranks := c04rank(arrival)
@@ -121,6 +127,9 @@ func c13listAll(out *vharness.Out, rng *rand.Rand, kind, where string, desc []st
 				}
 				if !wantErr {
 					for i := lo; i <= hi; i++ {
+						if skip[string(canon[i].GetHash().Bytes())] {
+							continue // does not open on this reader: logged and skipped
+						}
 						want = append(want, string(canon[i].GetHash().Bytes()))
 					}
 					if rev {
@@ -159,9 +168,19 @@ func c13listAll(out *vharness.Out, rng *rand.Rand, kind, where string, desc []st
 					}
 					obs = "(Some " + vharness.Ns(ids) + ")"
 				}
+				caseCoq := fmt.Sprintf("CList %s %s %s %v %s", entriesCoq, s.coq, u.coq, rev, obs)
+				if len(skip) > 0 {
+					var sk []uint64
+					for h := range skip {
+						if id, ok := idOf[h]; ok {
+							sk = append(sk, id)
+						}
+					}
+					caseCoq = fmt.Sprintf("CListSkip %s %s %s %v %s %s", entriesCoq, s.coq, u.coq, rev, vharness.Ns(vSortedU64(sk)), obs)
+				}
 				out.Emit(vharness.Case{
 					Kind: kind,
-					Coq:  fmt.Sprintf("CList %s %s %s %v %s", entriesCoq, s.coq, u.coq, rev, obs),
+					Coq:  caseCoq,
 					Key:  fmt.Sprintf("%v|%s|%s|%s|%v", desc, where, s.name, u.name, rev), Nontrivial: len(canon) >= 2 && (s.b != nil || u.b != nil || rev),
 					OracleOK: ok, Note: note, Sig: "listing is not the requested range of the log order",
 					Replay: map[string]any{"store": kind, "history": desc, "replica": where, "since": s.name, "until": u.name, "reverse": rev},
@@ -216,6 +235,14 @@ func TestVerifC13(t *testing.T) {
 			msg  *MessageStore
 		}
 		ws := []*writer{{r: x}, {r: y}}
+		// every other message history has a third writer whose chain key the two readers never get: its
+		// entries sit in their logs, interleaved with the others, and do not open there
+		var z *writer
+		zEntries := map[string]bool{}
+		if messages && hi%4 == 3 {
+			z = &writer{r: node.newAccount()}
+			z.msg = z.r.openMessages(g)
+		}
 		for _, w := range ws {
 			if messages {
 				w.msg = w.r.openMessages(g)
@@ -249,6 +276,19 @@ func TestVerifC13(t *testing.T) {
 		}
 		var desc []string
 		for i := 0; i < n; i++ {
+			if z != nil && rng.Intn(3) == 0 {
+				// the third writer: takes what a reader has, writes, hands it back
+				o := ws[rng.Intn(2)]
+				vDeliver(ctx, t, z.msg, o.msg.OpLog().Heads().Slice()...)
+				op, err := z.msg.AddMessage(ctx, []byte(fmt.Sprintf("unreadable %d", i)))
+				if err != nil {
+					t.Fatal(err)
+				}
+				zEntries[string(op.GetEntry().GetHash().Bytes())] = true
+				vDeliver(ctx, t, o.msg, z.msg.OpLog().Heads().Slice()...)
+				desc = append(desc, "z:write")
+				continue
+			}
 			wi := rng.Intn(2)
 			w := ws[wi]
 			if rng.Intn(4) == 0 {
@@ -279,7 +319,7 @@ func TestVerifC13(t *testing.T) {
 		}
 		// on the writers as they are
 		for i, w := range ws {
-			c13listAll(out, rng, kind, fmt.Sprintf("writer %d", i), desc, store(w), lister(w), exhaustive)
+			c13listAll(out, rng, kind, fmt.Sprintf("writer %d", i), desc, store(w), lister(w), exhaustive, zEntries)
 		}
 		// union of both logs on fresh replicas of device x
 		seen := map[string]ipfslog.Entry{}
@@ -320,7 +360,7 @@ func TestVerifC13(t *testing.T) {
 			for _, step := range plan {
 				vDeliver(ctx, t, store(fw), step...)
 			}
-			c13listAll(out, rng, kind, "replica: "+name, desc, store(fw), lister(fw), exhaustive)
+			c13listAll(out, rng, kind, "replica: "+name, desc, store(fw), lister(fw), exhaustive, zEntries)
 			if name == "one batch" {
 				// and after a reopen
 				store(fw).Close()
@@ -329,7 +369,7 @@ func TestVerifC13(t *testing.T) {
 				} else {
 					fw.meta = r.openMeta(g)
 				}
-				c13listAll(out, rng, kind, "replica: one batch, reopened", desc, store(fw), lister(fw), exhaustive)
+				c13listAll(out, rng, kind, "replica: one batch, reopened", desc, store(fw), lister(fw), exhaustive, zEntries)
 			}
 			store(fw).Close()
 			r.db.Close()
@@ -337,6 +377,10 @@ func TestVerifC13(t *testing.T) {
 		for _, w := range ws {
 			store(w).Close()
 			w.r.db.Close()
+		}
+		if z != nil {
+			z.msg.Close()
+			z.r.db.Close()
 		}
 	}
 	_ = protocoltypes.GroupType_GroupTypeMultiMember
